@@ -24,6 +24,8 @@ import (
 
 const c34SigDup = "duplicate bucket entry after add/stuff inserted a node still parked in replacements"
 
+var c34dups int
+
 type c34state struct {
 	tab     *dht.VerifTable
 	ids     map[uint64]dht.NodeID
@@ -249,7 +251,10 @@ func c34oracle(c *Ctx, s *c34state, line string) {
 					sig = c34SigDup
 					c.Count("F20-duplicate-seen")
 				}
-				c.Fail(sig, s.dump("-"))
+				c34dups++
+				if sig != c34SigDup || c34dups <= 3 {
+					c.Fail(sig, s.dump("-"))
+				}
 				break
 			}
 			seen[n.ID] = true
